@@ -61,6 +61,12 @@ def around_pows(lo, hi):
     return sorted(s)
 
 
+FIXED_WIDTH_READERS = frozenset({
+    "read_int8", "read_int16", "read_int32", "read_int64", "read_uint8", "read_uint16", "read_uint32",
+    "read_uint64", "read_error_code", "read_timedelta_i32", "read_timedelta_i64", "read_datetime_i64",
+    "read_nullable_datetime_i64"})
+
+
 def readers_table():
     from kio.serial import readers as r
 
@@ -449,12 +455,28 @@ def run(ctx):
     rinputs = reader_inputs(rng, ctx.tier, encoded)
     seen = set()
     lines, py_r = [], []
+    nfixed = 0
     for fn, b in rinputs:
         if (fn, b) in seen:
             continue
         seen.add((fn, b))
         py_r.append((fn, b, pyside.run_reader(rt[fn], b)))
         lines.append(f"prim {fn} {values.hex_tok(b)}")
+        # fixed-width encodings are bijections between the domain and the byte strings the reader
+        # accepts: whatever such a reader accepts, the matching writer must turn back into the bytes
+        # consumed (an accepted encoding of no member of the domain shows here, model or no model)
+        if fn in FIXED_WIDTH_READERS and py_r[-1][2].startswith("ok"):
+            nfixed += 1
+            try:
+                buf = io.BytesIO(b); v = rt[fn](buf); n = buf.tell()
+                out = io.BytesIO(); wt[fn.replace("read_", "write_", 1)](out, v)
+                if out.getvalue() != b[:n]:
+                    direct_fail.append({"fn": fn, "bytes": b[:n].hex(), "value": repr(v)[:200],
+                                        "python": "written back as " + out.getvalue().hex(),
+                                        "expected": "the bytes the reader consumed (fixed-width encodings are one-to-one)"})
+            except Exception as e:  # noqa: BLE001
+                direct_fail.append({"fn": fn, "bytes": b.hex(), "python": f"{type(e).__name__}: {e}"[:200],
+                                    "expected": "a value the matching writer accepts"})
     lean_r = driver.run_parallel(lines, jobs=14)
     for (fn, b, res), lr in zip(py_r, lean_r):
         if not pyside.same_outcome(res, lr):
@@ -560,6 +582,7 @@ def run(ctx):
         "samples": [{"fn": fn, "bytes": b.hex(), "python": res} for fn, b, res in py_r[::max(1, len(py_r)//8)][:8]]
                    + [{"fn": fn, "value": values.render(a)[:80], "python": res[:80]} for fn, a, res in py_w[::max(1, len(py_w)//6)][:6]],
         "disagreements": len(disagreements), "property_failures_on_code": len(direct_fail),
+        "fixed_width_read_then_write_back": nfixed,
     })
     classify(ctx, disagreements, direct_fail)
 
